@@ -653,6 +653,15 @@ pub(crate) fn gather_filter_info(
         .get(cred_def_id)
         .ok_or_else(|| err_msg!("cred_def_id {cred_def_id} could not be found in the cred_defs"))?;
 
+    // the schema a restriction is evaluated against must be the one the credential definition
+    // was created over: `schema_id` comes from the (unauthenticated) presentation
+    if cred_def.schema_id != *schema_id {
+        return Err(err_msg!(
+            ProofRejected,
+            "schema_id {schema_id} is not the schema of the credential definition {cred_def_id}"
+        ));
+    }
+
     Ok(Filter {
         schema_id: schema_id.clone(),
         schema_name: schema.name.clone(),
